@@ -371,6 +371,9 @@ func (a *scriptActor) doOp(ctx vivid.ActorContext, m umsg) {
 				_ = sch.Loop(ctx.Ref(), 3*time.Millisecond, asTick{X: x, Owner: a.name}, vivid.WithSchedulerReference("r"))
 			}
 		}
+	case "jobs":
+		// does the actor's scheduler still know the job under the fixed reference?
+		x.ev(map[string]any{"e": "Jobs", "a": a.name, "v": b2i(ctx.Scheduler().Exists("r"))})
 	case "stash", "sstash":
 		ctx.Stash()
 		x.ev(map[string]any{"e": "Stashed", "a": a.name, "m": m.ID, "n": ctx.StashCount()})
